@@ -4,7 +4,7 @@
 From Coq Require Import List NArith ZArith Bool Arith Lia.
 From LMBase Require Import Res ListX IEEE.
 From LMIo Require Import IoBase IoNom IoJaspar IoUniprobe IoPrint IoPrintU IoBaseProofs IoUtf8Proofs
-  IoTokProofs IoMatrixProofs IoHeaderProofs IoRoundtrip.
+  IoTokProofs IoMatrixProofs IoHeaderProofs IoRoundtrip IoLineProofsU.
 Import ListNotations.
 
 (* ---------- lines ---------- *)
@@ -211,17 +211,13 @@ Section RTU.
 
   Lemma wf_dec_okl : forall t, wf_dec t = true -> forallb okl t = true.
   Proof.
-    intros t H. unfold wf_dec in H. pose proof (span_split is_digit t) as E. pose proof (span_fst_all is_digit t) as F.
-    destruct (span is_digit t) as [a r]. cbn [fst snd] in *. apply andb_true_iff in H. destruct H as [_ H].
-    assert (forall l, forallb is_digit l = true -> forallb okl l = true) as D.
-    { intros l Hl. eapply forallb_imp; [|exact Hl]. intros x Hx. unfold okl.
-      unfold is_digit, in_range in Hx. apply andb_true_iff in Hx. destruct Hx as [X1 X2]. apply N.leb_le in X1, X2.
-      apply andb_true_iff. split.
-      - unfold is_scalar. apply orb_true_iff. left. apply N.ltb_lt. lia.
-      - apply negb_true_iff. apply N.eqb_neq. lia. }
-    rewrite E. rewrite forallb_app. rewrite (D a F). cbn [andb].
-    destruct r as [|c b]; [reflexivity|]. apply andb_true_iff in H. destruct H as [Hc Hb].
-    apply N.eqb_eq in Hc. subst c. cbn [forallb]. rewrite (D b Hb). reflexivity.
+    intros t H. eapply forallb_imp; [|exact (wf_dec_chars t H)]. intros x Hx. cbn beta in Hx.
+    assert (x < 128 /\ x <> 10)%N as [X1 X2].
+    { repeat (apply orb_true_iff in Hx; destruct Hx as [Hx|Hx]); try (apply N.eqb_eq in Hx; subst x; split; [reflexivity|discriminate]).
+      unfold is_digit, in_range in Hx. apply andb_true_iff in Hx. destruct Hx as [A1 A2]. apply N.leb_le in A1, A2. lia. }
+    unfold okl. apply andb_true_iff. split.
+    - unfold is_scalar. apply orb_true_iff. left. apply N.ltb_lt. lia.
+    - apply negb_true_iff. apply N.eqb_neq. exact X2.
   Qed.
 
   Lemma name_line_ok : forall l y, wf_name A l = true ->
@@ -393,5 +389,93 @@ Section RTU.
       { unfold fill_fuel. cbn [length]. lia. }
       apply (u_run_records rs p _ (u_new s) s1 Gp Grs); [exact E1|exact W1|exact Es1|].
       unfold stream_bytes. rewrite Ec. pose proof (enc_recs_length (p :: rs) G) as L. cbn [length] in L. lia.
+  Qed.
+
+  (* ---------- blank lines before the first record ---------- *)
+
+  Definition wsb (b : N) : bool := in_range 9 13 b || N.eqb b 32.
+  (* white-space bytes forming complete lines *)
+  Definition wf_blank_prefix (l : list N) : bool :=
+    forallb wsb l && match rev l with [] => true | c :: _ => N.eqb c 10 end.
+
+  Lemma wsb_facts : forall b, wsb b = true -> is_white_space b = true /\ is_scalar b = true /\ (b < 128)%N.
+  Proof.
+    intros b H. unfold wsb, in_range in H. apply orb_true_iff in H.
+    assert ((9 <= b <= 13)%N \/ b = 32%N) as R.
+    { destruct H as [H|H]; [left; apply andb_true_iff in H; destruct H as [H1 H2]; apply N.leb_le in H1, H2; lia
+                           |right; apply N.eqb_eq in H; exact H]. }
+    repeat split.
+    - unfold is_white_space. destruct H as [H|H]; [unfold in_range; rewrite H; reflexivity|].
+      apply N.eqb_eq in H. subst b. reflexivity.
+    - unfold is_scalar. apply orb_true_iff. left. apply N.ltb_lt. lia.
+    - lia.
+  Qed.
+
+  Lemma ws_lines_aux : forall n l, length l <= n -> forallb wsb l = true ->
+    (l = [] \/ exists l', l = l' ++ [10%N]) ->
+    exists blanks, concat blanks = l /\ Forall blank_line blanks.
+  Proof.
+    induction n as [|n IH]; intros l Hn Hw He.
+    - destruct l; [|cbn in Hn; lia]. exists []. split; [reflexivity|constructor].
+    - destruct l as [|b0 l0] eqn:El; [exists []; split; [reflexivity|constructor]|]. rewrite <- El in *.
+      destruct He as [He|[l' He]]; [subst; discriminate|].
+      destruct (split_delim 10 l) as [[p q]|] eqn:Es.
+      2: { exfalso. apply (split_delim_none 10 l Es). rewrite He. apply in_or_app. right. left. reflexivity. }
+      destruct (split_delim_some 10 l p q Es) as [Epq [p0 [Ep Hn0]]].
+      assert (forallb wsb p0 = true /\ forallb wsb q = true) as [Hp0 Hq].
+      { rewrite Epq, Ep in Hw. rewrite !forallb_app in Hw. split_andb. split; assumption. }
+      assert (length q <= n) as Lq.
+      { rewrite Epq, Ep in Hn. rewrite !app_length in Hn. cbn [length] in Hn. lia. }
+      assert (q = [] \/ exists q', q = q' ++ [10%N]) as Hqe.
+      { destruct q as [|x q0] eqn:Eq; [left; reflexivity|right]. rewrite <- Eq in *.
+        destruct (exists_last (l := q)) as [q' [z Ez]]; [rewrite Eq; discriminate|].
+        exists q'. rewrite Ez. f_equal. f_equal.
+        rewrite Epq, Ez in He. rewrite app_assoc in He. apply app_inj_tail in He. tauto. }
+      destruct (IH q Lq Hq Hqe) as [blanks [Eb Hb]].
+      exists ((p0 ++ [10%N]) :: blanks). split; [cbn [concat]; rewrite Eb, <- Ep; symmetry; exact Epq|].
+      constructor; [|exact Hb]. split.
+      + exists p0. split; [reflexivity|]. rewrite forallb_forall in *. intros x Hx.
+        destruct (wsb_facts x (Hp0 x Hx)) as [_ [Hs _]]. unfold okl. rewrite Hs. cbn [andb].
+        apply negb_true_iff. apply N.eqb_neq. intros ->. exact (Hn0 Hx).
+      + rewrite trim_all_ws; [reflexivity|]. rewrite forallb_app. apply andb_true_iff. split; [|reflexivity].
+        rewrite forallb_forall in *. intros x Hx. exact (proj1 (wsb_facts x (Hp0 x Hx))).
+  Qed.
+
+  Lemma ws_lines : forall l, wf_blank_prefix l = true ->
+    exists blanks, enc_lines blanks = l /\ Forall blank_line blanks.
+  Proof.
+    intros l H. unfold wf_blank_prefix in H. apply andb_true_iff in H. destruct H as [Hw Hl].
+    assert (l = [] \/ exists l', l = l' ++ [10%N]) as He.
+    { destruct (rev l) as [|c r] eqn:Er.
+      - left. apply (f_equal (@rev N)) in Er. rewrite rev_involutive in Er. exact Er.
+      - right. apply N.eqb_eq in Hl. subst c. exists (rev r).
+        apply (f_equal (@rev N)) in Er. rewrite rev_involutive in Er. exact Er. }
+    destruct (ws_lines_aux (length l) l (le_n _) Hw He) as [blanks [Eb Hb]].
+    exists blanks. split; [|exact Hb]. unfold enc_lines. rewrite Eb. apply utf8_encode_ascii.
+    rewrite forallb_forall in *. intros x Hx. apply N.ltb_lt. exact (proj2 (proj2 (wsb_facts x (Hw x Hx)))).
+  Qed.
+
+  Theorem uniprobe_roundtrip_prefix : forall prefix rs s,
+    wf_blank_prefix prefix = true -> Forall goodp rs -> wf_stream s -> concat s = prefix ++ enc_recs rs ->
+    uniprobe_read A parse_f32 s = map (fun q => Ok (Some (spec_of q))) rs ++ [Ok None].
+  Proof.
+    intros prefix rs s Hpre G Hwf Ec. destruct (ws_lines prefix Hpre) as [blanks [Eb Hb]]. subst prefix.
+    unfold uniprobe_read.
+    destruct rs as [|p rs].
+    - cbn [enc_recs map concat] in Ec. rewrite app_nil_r in Ec.
+      assert (length blanks < fill_fuel s) as Hf.
+      { apply (fill_fuel_ok s blanks [] []); [apply blank_lines_are_lines; exact Hb|]. rewrite app_nil_r. exact Ec. }
+      cbn [u_run]. unfold u_next. cbn [u_new uline ubuf ustream].
+      rewrite (u_fill_eof blanks (fill_fuel s) s Hwf Hb Ec Hf). reflexivity.
+    - inversion G as [|x l Gp Grs]; subst.
+      destruct (goodp_inv p Gp) as [Hn _]. destruct (name_line_ok _ (fst p) Hn) as [Lp Np].
+      assert (concat s = enc_lines blanks ++ utf8_encode (name_line p)
+                         ++ (enc_lines (col_lines p) ++ enc_lines (gap_lines p) ++ enc_recs rs)) as Ec2.
+      { rewrite Ec. unfold enc_recs. cbn [map concat]. rewrite print_uniprobe_lines.
+        rewrite <- !app_assoc. reflexivity. }
+      destruct (u_fill_lines blanks (fill_fuel s) s (name_line p) _ Hwf Hb Lp Np Ec2) as [s1 [E1 [W1 Es1]]].
+      { apply (fill_fuel_ok s blanks [] _ (blank_lines_are_lines _ Hb) Ec2). }
+      apply (u_run_records rs p _ (u_new s) s1 Gp Grs); [exact E1|exact W1|exact Es1|].
+      unfold stream_bytes. rewrite Ec, app_length. pose proof (enc_recs_length (p :: rs) G) as L. cbn [length] in L. lia.
   Qed.
 End RTU.
